@@ -1070,7 +1070,7 @@ def platform_tie(chk, himpl):
 
 
 CPU_BUDGET = 10            # CPU seconds one call of the implementation may take (the slowest legitimate case takes milliseconds)
-CPU_BUDGET_RETRY = 90      # budget of the single re-run that decides between "slow" and "does not return"
+CPU_BUDGET_RETRY = 30      # budget of the single re-run that decides between "slow" and "does not return"
 MODEL_CPU_TOTAL = 1500     # CPU seconds the extracted-model driver may take for one chunk (RLIMIT_CPU)
 WALL = 3000                # wall-clock limit of one chunk: exceeded = machine load = inconclusive, never a verdict
 CHUNK = 6000
@@ -1095,31 +1095,43 @@ def _spawn(cmd, text, wall, cpu_total=None):
         return None, (out or "").splitlines(), err or "", True
 
 
+MAX_CONFIRMED, MAX_OVERRUNS, MAX_CRASHES_PER_FORM, MAX_CRASHES = 3, 6, 4, 12
+CRASH = "CRASHED"
+
+
+def form_of(line):
+    return line.split(" ", 1)[0]
+
+
 def run_stream(cmd, lines, notes, what, impl, state):
     """run one chunk; returns a list with one answer per line, None where no answer was obtained.
-    impl: per-case CPU watchdog inside the harness (marker line HANG, exit 97) -> the case is re-run alone with a larger
-    budget; still no answer -> the answer of that case is HANG (judged as a failing input); the rest of the chunk is resumed.
-    Once one call is confirmed not to return, later watchdog hits are taken as they are (no second budget), and after three
-    the run stops: the verdict is settled and every further hang would cost the full budget.
-    model driver: RLIMIT_CPU on the whole chunk; the case it stops at is skipped and recorded (tooling, not a verdict)."""
+    impl: per-case CPU watchdog inside the harness (marker line HANG, exit 97): a first-stage overrun (CPU_BUDGET) is re-run alone
+    with CPU_BUDGET_RETRY; still no answer -> the answer of that case is HANG (a failing input) and its call form is not driven
+    any more in this run; at most MAX_CONFIRMED confirmations and MAX_OVERRUNS first-stage overruns per run, then the streams stop.
+    A crash of the harness (signal / unexpected exit) is the answer CRASH of the case it stopped at; after MAX_CRASHES_PER_FORM
+    crashes a form is not driven any more.  model driver: RLIMIT_CPU on the whole chunk (tooling, not a verdict)."""
     import signal
     n = len(lines)
     res = [None] * n
     pos = mh = 0
     while pos < n:
-        if impl and state["hangs"] >= 3:
-            notes.append("%s: three calls did not return; the remaining %d cases of this chunk were not run" % (what, n - pos))
+        if impl and (state["hangs"] >= MAX_CONFIRMED or state["overruns"] >= MAX_OVERRUNS or state["crashes"] >= MAX_CRASHES):
+            notes.append("%s: %d calls confirmed not to return, %d first-stage overruns, %d crashes: the remaining %d cases of this chunk were not run"
+                         % (what, state["hangs"], state["overruns"], state["crashes"], n - pos))
+            state["stopped"] = True
             break
-        rc, out, err, timed = _spawn(cmd + ([str(CPU_BUDGET)] if impl else []), "".join(lines[pos:]), WALL,
+        idx = [i for i in range(pos, n) if not (impl and form_of(lines[i]) in state["dead_forms"])]
+        if not idx:
+            break
+        rc, out, err, timed = _spawn(cmd + ([str(CPU_BUDGET)] if impl else []), "".join(lines[i] for i in idx), WALL,
                                      None if impl else MODEL_CPU_TOTAL)
         if impl and out and out[-1] == HANG:
             k = len(out) - 1
-            res[pos:pos + k] = out[:k]
-            hung = pos + k
-            if state["hangs"] == 0:
-                rc2, out2, err2, timed2 = _spawn(cmd + [str(CPU_BUDGET_RETRY)], lines[hung], WALL)
-            else:
-                rc2, out2, err2, timed2 = 97, [HANG], "", False
+            for j in range(k):
+                res[idx[j]] = out[j]
+            hung = idx[k]
+            state["overruns"] += 1
+            rc2, out2, err2, timed2 = _spawn(cmd + [str(CPU_BUDGET_RETRY)], lines[hung], WALL)
             if len(out2) == 1 and out2[0] != HANG and rc2 == 0:
                 res[hung] = out2[0]
                 notes.append("%s: case %r needed more than %d s of CPU (answered within %d s)" % (what, lines[hung][:120], CPU_BUDGET, CPU_BUDGET_RETRY))
@@ -1128,28 +1140,51 @@ def run_stream(cmd, lines, notes, what, impl, state):
             else:
                 res[hung] = HANG
                 state["hangs"] += 1
+                state["dead_forms"].add(form_of(lines[hung]))
+                notes.append("%s: call form %s does not return on %r: form not driven any more in this run" % (what, form_of(lines[hung]), lines[hung][:120]))
             pos = hung + 1
             continue
         if timed:
             k = max(len(out) - 1, 0)                       # the last line may be incomplete
-            res[pos:pos + k] = out[:k]
-            notes.append("%s: wall-clock time-out (%d s) after %d of %d cases of a chunk (machine load): the rest is not judged" % (what, WALL, pos + k, n))
+            for j in range(k):
+                res[idx[j]] = out[j]
+            notes.append("%s: wall-clock time-out (%d s) after %d of %d cases of a chunk (machine load): the rest is not judged" % (what, WALL, k, len(idx)))
             break
         if (not impl) and rc is not None and rc < 0 and -rc in (signal.SIGXCPU, signal.SIGKILL):
             k = len(out)
-            res[pos:pos + k] = out[:k]
-            notes.append("%s: CPU limit (%d s) reached at case %r: skipped, correspondence not judged for it" % (what, MODEL_CPU_TOTAL, lines[pos + k][:120] if pos + k < n else "?"))
-            pos += k + 1
+            for j in range(min(k, len(idx))):
+                res[idx[j]] = out[j]
+            notes.append("%s: CPU limit (%d s) reached at case %r: skipped, correspondence not judged for it" % (what, MODEL_CPU_TOTAL, lines[idx[k]][:120] if k < len(idx) else "?"))
+            if k >= len(idx):
+                break
+            pos = idx[k] + 1
             mh += 1
             if mh >= 3:
                 break
             continue
-        if rc != 0 or len(out) != n - pos:
-            k = min(len(out), n - pos)
-            res[pos:pos + k] = out[:k]
-            notes.append("%s: ended with rc=%s after %d of %d lines: %s" % (what, rc, pos + k, n, (err or "")[-300:]))
-            return res, "rc=%s, %d/%d lines" % (rc, pos + k, n)
-        res[pos:] = out
+        if impl and rc != 0 and len(out) < len(idx):
+            # the harness died (signal, abort, exit) while running case idx[len(out)]: every earlier line is complete (flushed per case)
+            k = len(out)
+            for j in range(k):
+                res[idx[j]] = out[j]
+            dead = idx[k]
+            f = form_of(lines[dead])
+            res[dead] = "%s rc=%s %s" % (CRASH, rc, (err or "").strip().splitlines()[-1][:120] if (err or "").strip() else "")
+            state["crashes"] += 1
+            state["crash_forms"][f] = state["crash_forms"].get(f, 0) + 1
+            if state["crash_forms"][f] >= MAX_CRASHES_PER_FORM:
+                state["dead_forms"].add(f)
+                notes.append("%s: call form %s crashed %d times: form not driven any more in this run" % (what, f, MAX_CRASHES_PER_FORM))
+            pos = dead + 1
+            continue
+        if rc != 0 or len(out) != len(idx):
+            k = min(len(out), len(idx))
+            for j in range(k):
+                res[idx[j]] = out[j]
+            notes.append("%s: ended with rc=%s after %d of %d lines: %s" % (what, rc, k, len(idx), (err or "")[-300:]))
+            return res, "rc=%s, %d/%d lines" % (rc, k, len(idx))
+        for j, i in enumerate(idx):
+            res[i] = out[j]
         pos = n
     return res, None
 
@@ -1196,7 +1231,7 @@ def run_cases(chk, cases, himpl, drv, stats):
                 if mg != got and not bad:      # impl != oracle is already reported as a failing input
                     chk.broke("correspondence model/implementation differs on %s red=%d args=%s: model=%s impl=%s"
                               % (c["variant"], c["red"], c["iargs"], mg[:300], got[:300]))
-        if len(chk.failing) > 200 or stats["hangs"] >= 3:
+        if len(chk.failing) > 200 or stats["stopped"]:
             break
     stats["corr"] += ncorr
     return ncorr
@@ -1217,12 +1252,16 @@ def judge(c, got):
     out = []
     if k == "throw":
         if got == HANG:
-            out.append((site, klass or "does not return", "THROW", "the call does not return within %d s of CPU time (re-run alone)" % CPU_BUDGET_RETRY))
+            out.append((site, "does-not-return", "THROW", "the call does not return within %d s of CPU time (re-run alone)" % CPU_BUDGET_RETRY))
+        elif got.startswith(CRASH):
+            out.append((site, "crash", "THROW", "the harness process died in this call: " + got))
         elif got != "THROW":
             out.append((site, klass, "THROW", "division by zero not reported as GivMathDivZero"))
         return out
     if got == HANG:
-        return [(site, klass or "does not return", expected_string(c), "the call does not return within %d s of CPU time (re-run alone)" % CPU_BUDGET_RETRY)]
+        return [(site, "does-not-return", expected_string(c), "the call does not return within %d s of CPU time (re-run alone)" % CPU_BUDGET_RETRY)]
+    if got.startswith(CRASH):
+        return [(site, "crash", expected_string(c), "the harness process died in this call: " + got)]
     if got.startswith("THROW") or got.startswith("UNKNOWN") or got.startswith("EXN"):
         return [(site, klass, expected_string(c), "unexpected exception / harness answer")]
     if k in ("rat", "ratc"):
@@ -1345,7 +1384,7 @@ def main(tier, replay=None):
                 cases[-1].update(kind="canonlist", exp=None)
     dist = {}
     ncorr = nored = 0
-    stats = {"planned": 0, "planned_corr": 0, "judged": 0, "corr": 0, "hangs": 0}
+    stats = {"planned": 0, "planned_corr": 0, "judged": 0, "corr": 0, "hangs": 0, "overruns": 0, "crashes": 0, "crash_forms": {}, "dead_forms": set(), "stopped": False}
     rounds = 1 if (replay or tier == "quick") else 8     # thorough: eight batches (memory), the sweep in the first
     for rd in range(rounds):
         if not replay:
@@ -1354,7 +1393,7 @@ def main(tier, replay=None):
         for c in cases:
             dist[c["variant"]] = dist.get(c["variant"], 0) + 1
         nored += sum(1 for c in cases if c["red"] == 0)
-        if chk.broken or len(chk.failing) > 40 or stats["hangs"]:
+        if chk.broken or len(chk.failing) > 40 or stats["hangs"] or stats["crashes"]:
             break
     # floors: what was actually compared.  Falling below them is a tooling problem (time-outs, load): it is said here, loudly,
     # and is neither a pass of the unjudged part nor a verdict about /repo.
@@ -1362,7 +1401,11 @@ def main(tier, replay=None):
                            "correspondence comparisons planned": stats["planned_corr"], "correspondence comparisons made": stats["corr"],
                            "theorems re-checked": len(res.get("theorems", [])) if res.get("ok") else 0}
     floor_missed = []
-    if not (chk.broken or len(chk.failing) > 40 or stats["hangs"]):
+    if stats["hangs"] or stats["overruns"] or stats["crashes"]:
+        chk.cov["hang_and_crash_handling"] = {"first-stage overruns": stats["overruns"], "confirmed does-not-return": stats["hangs"], "crashes": stats["crashes"],
+                                              "call forms not driven any more": sorted(stats["dead_forms"]),
+                                              "budgets (CPU s)": {"first stage": CPU_BUDGET, "confirmation": CPU_BUDGET_RETRY}}
+    if not (chk.broken or len(chk.failing) > 40 or stats["hangs"] or stats["crashes"]):
         if stats["judged"] < 0.98 * stats["planned"]:
             floor_missed.append("only %d of %d implementation answers were judged" % (stats["judged"], stats["planned"]))
         if drv and stats["corr"] < 0.95 * stats["planned_corr"]:
